@@ -368,20 +368,44 @@ def run_pack_session(ctx, tmpdir, session, inter=None):
     mp = ModulusPack()
     hist, results = [], []
     content = ""
-    for content, gets in session:
+    mp2 = None
+    for step in session:
+        content, gets = step[0], step[1]
+        other = step[2] if len(step) > 2 else None
         mp.read_file(write_file(tmpdir, content))
-        hist.append([content, []])
+        hist.append([content, []] + ([other] if other is not None else []))
+        if other is not None:
+            # a SECOND live ModulusPack in the process reads another file (or fails to open one) after
+            # ours was loaded; ours must be unaffected
+            if mp2 is None:
+                mp2 = ModulusPack()
+            try:
+                mp2.read_file(os.path.join(tmpdir, "no-such-file") if other == "<missing>"
+                              else write_file(tmpdir, other))
+            except (IOError, OSError):
+                pass
         for req, r in gets:
             hist[-1][1].append([list(req), r])
-            case = {"path": "direct", "session": [[c, [list(g) for g in gs]] for c, gs in hist]}
+            case = {"path": "direct", "session": [[h[0], [list(g) for g in h[1]]] + h[2:] for h in hist]}
+            if other is not None:
+                case["note2"] = "a second ModulusPack object read %s after this one was loaded" % (
+                    "a missing file" if other == "<missing>" else "another file")
             if len(hist) > 1 or len(hist[-1][1]) > 1:
                 case["note"] = "same ModulusPack object: file %d, get_modulus call %d on it" % (len(hist), len(hist[-1][1]))
             e, exc = call_get(mp, req, r)
-            out, sizes = judge_direct(ctx, case, mp, content, req, e, exc)
+            out, sizes = judge_direct(ctx, case, mp, content, req, e, exc,
+                                      keyprefix="two-packs-" if other is not None else "")
             results.append((content, req, r, out, sizes))
+        if other not in (None, "<missing>") and gets:
+            # ... and the second pack serves its own file
+            req, r = gets[0]
+            e, exc = call_get(mp2, req, r)
+            out2, sizes2 = judge_direct(ctx, dict(case, note3="this get_modulus is on the SECOND pack (its own file)"),
+                                        mp2, other, req, e, exc, keyprefix="two-packs-second-")
+            results.append((other, req, r, out2, sizes2))
     if inter is not None:
         reqA, rA, reqB, rB = inter
-        case = {"path": "direct", "session": [[c, [list(g) for g in gs]] for c, gs in hist],
+        case = {"path": "direct", "session": [[h[0], [list(g) for g in h[1]]] + h[2:] for h in hist],
                 "interleave": [list(reqA), rA, list(reqB), rB],
                 "note": "two overlapping get_modulus calls on the shared pack: A selects, B runs completely, A picks"}
         (eA, xA), (eB, xB), _inside = interleave(lambda: mp.get_modulus(*reqA), lambda: mp.get_modulus(*reqB), rA, rB)
@@ -472,6 +496,45 @@ def check_gex_interleaved(ctx, tmpdir, content, reqA, rA, reqB, rB, limits):
                      "instead of %d" % (who, k.p.bit_length(), want), case=case, expected=want, observed=k.p.bit_length())
 
 
+def check_server_moduli(ctx, tmpdir, content, other, req, limits):
+    """End to end through the public server entry point: Transport.load_server_moduli(file), then another
+    ModulusPack in the process reads `other`, then a key exchange is served from the transport's pack."""
+    from paramiko import Transport
+    from paramiko.primes import ModulusPack
+    saved = Transport._modulus_pack
+    try:
+        ok = Transport.load_server_moduli(write_file(tmpdir, content))
+        pack = Transport._modulus_pack
+        p2 = ModulusPack()
+        try:
+            p2.read_file(os.path.join(tmpdir, "no-such-file") if other == "<missing>" else write_file(tmpdir, other))
+        except (IOError, OSError):
+            pass
+        accepted = [x for x in (ref_parse(t) for t in split_lines(content)) if x is not None]
+        sizes = sorted({a[0] for a in accepted})
+        case = {"path": "server-moduli", "content": content, "other": other, "req": list(req)}
+        if not ok or pack is None:
+            if accepted:
+                ctx.fail("server-moduli-not-loaded", "Transport.load_server_moduli did not load an acceptable file", case=case)
+            return
+        norm, e, exc, sent = drive_gex(pack, False, req, 0)
+        if e is None:
+            if accepted:
+                ctx.fail("two-packs-no-offer", "the server raised although its moduli file has an acceptable group",
+                         case=case, observed=exc)
+            return
+        if (e[1].bit_length(), e[0], e[1]) not in accepted:
+            ctx.fail("two-packs-rejected-line-offered", "the server offered a group that is not in its own moduli file "
+                     "(another ModulusPack object read a different file)", case=case, observed=canon_entry(e))
+        want = ref_size(sizes, *req)
+        if (want is not None and req[0] <= req[1] <= req[2] and limits[0] <= req[1] <= limits[1]
+                and e[1].bit_length() != want):
+            ctx.fail("two-packs-gex-consistent-request", "served size %d instead of %d" % (e[1].bit_length(), want),
+                     case=case, expected=want, observed=e[1].bit_length())
+    finally:
+        Transport._modulus_pack = saved
+
+
 def model_of_text(piece):
     """Model line for a piece of the file the generator did not produce as such (independent parse)."""
     t = piece.strip()
@@ -519,7 +582,9 @@ def run(ctx):
                 "arbitrary; direct ModulusPack.get_modulus and KexGex new/old style requests (u32 fields); every "
                 "pack object is driven through sessions (1..3 files loaded one after the other, 1..3 requests "
                 "each; 1..3 key exchanges per pack) and through a deterministic two-thread overlap (A selects, B "
-                "runs completely at A's _roll_random, A picks) directly and via two KexGex objects sharing a pack. "
+                "runs completely at A's _roll_random, A picks) directly and via two KexGex objects sharing a pack; "
+                "a SECOND live ModulusPack reading another (or a missing) file after the first was loaded, also end "
+                "to end via Transport.load_server_moduli + KexGex. "
                 "A case is non-trivial when distinct and the file has at least one accepted line")
     ctx.trusted += ["model coq/Model/C43.v is hand-written; tied to paramiko/primes.py and kex_gex.py by this "
                     "differential run (vm_compute of the model's own definitions)",
@@ -549,6 +614,10 @@ def run(ctx):
                                        ("\n".join(w) + "\n", [((1024, 4096, 8192), 0)])],
                          inter=((1024, 2048, 8192), 0, (1024, 4096, 8192), 0))
         check_gex_interleaved(ctx, tmpdir, "\n".join(w) + "\n", (1024, 2048, 8192), 0, (1024, 4096, 8192), 0, limits)
+        # two live packs: ours, then a second one reads another file / fails to open one
+        run_pack_session(ctx, tmpdir, [("\n".join(w) + "\n", [((1024, 2048, 8192), 0)], f2),
+                                       ("\n".join(w) + "\n", [((1024, 4096, 8192), 0)], "<missing>")])
+        check_server_moduli(ctx, tmpdir, "\n".join(w) + "\n", f2, (1024, 2048, 8192), limits)
         ctx.count(("witness-session",), kind="direct-witness")
 
         # ---- 1. direct ModulusPack: sessions on one pack object (1..3 files, 1..3 requests each, then
@@ -571,7 +640,14 @@ def run(ctx):
                         last = [a for a in (ref_parse(t) for t in texts) if a][-1][0]
                         req = (rng.choice([0, last - 1, last]), last, rng.choice([last, last + 1, 2 ** 20]))
                     gets.append((req, rng.randrange(0, 50)))
-                session.append((content, gets))
+                if rng.random() < 0.3:
+                    o_lines = gen_file(rng, real)
+                    other = layout_file(rng, [t for t, _, _ in o_lines]) if rng.random() < 0.8 else "<missing>"
+                    if other != "<missing>":
+                        lines_of[other] = lines_of.get(other, []) + o_lines
+                    session.append((content, gets, other))
+                else:
+                    session.append((content, gets))
                 ctx.dist[ending_kind(content)] = ctx.dist.get(ending_kind(content), 0) + 1
                 for _, _, k in lines:
                     ctx.dist["line-" + k] = ctx.dist.get("line-" + k, 0) + 1
@@ -580,7 +656,7 @@ def run(ctx):
                 sa, sb = rng.sample(sizes0, 2)
                 inter = ((0, sa, sa), rng.randrange(50), (0, sb, sb), rng.randrange(50))
             res = run_pack_session(ctx, tmpdir, session, inter=inter)
-            ngets = sum(len(g) for _c, g in session)
+            ngets = sum(len(st[1]) + (1 if len(st) > 2 and st[2] != "<missing>" and st[1] else 0) for st in session)
             for i, (content, req, r, out, sizes) in enumerate(res):
                 cases.append((lines_of[content], req, r, out, content))
                 shape = ("consistent" if req[0] <= req[1] <= req[2] else "inverted" if req[0] > req[2]
@@ -619,6 +695,11 @@ def run(ctx):
                           kind=("gex-old" if old else
                                 ("gex-consistent" if req[0] <= req[1] <= req[2] and limits[0] <= req[1] <= limits[1]
                                  else "gex-rewritten")) + ("" if len(history) == 1 else "-reused-pack"))
+            if rng.random() < 0.25:
+                o_texts = [t for t, _, _ in gen_file(rng, real)]
+                check_server_moduli(ctx, tmpdir, content, layout_file(rng, o_texts) if rng.random() < 0.8 else "<missing>",
+                                    gen_request(rng, sizes0, real, u32=True), limits)
+                ctx.count(("server-moduli", content), nontrivial=bool(sizes0), kind="gex-server-moduli-two-packs")
             inl = [x for x in sizes0 if limits[0] <= x <= limits[1]]
             if len(inl) >= 2 and rng.random() < 0.5:
                 sa, sb = rng.sample(inl, 2)
@@ -656,10 +737,13 @@ def replay(ctx, rep):
         ctx.count(("replay2", repr(case)))
         path = case.get("path")
         if path == "direct" and "session" in case:
-            session = [(c, [(tuple(q), r) for q, r in gs]) for c, gs in case["session"]]
+            session = [tuple([h[0], [(tuple(q), r) for q, r in h[1]]] + list(h[2:])) for h in case["session"]]
             inter = case.get("interleave")
             run_pack_session(ctx, tmpdir, session,
                              inter=(tuple(inter[0]), inter[1], tuple(inter[2]), inter[3]) if inter else None)
+            return
+        if path == "server-moduli":
+            check_server_moduli(ctx, tmpdir, case["content"], case["other"], tuple(case["req"]), limits)
             return
         if path == "gex-interleaved":
             check_gex_interleaved(ctx, tmpdir, case["content"], tuple(case["reqA"]), case["rA"], tuple(case["reqB"]),
